@@ -12,6 +12,7 @@ import (
 	"github.com/lni/dragonboat/v4/internal/raft"
 	pb "github.com/lni/dragonboat/v4/raftpb"
 	sm "github.com/lni/dragonboat/v4/statemachine"
+	"github.com/lni/dragonboat/v4/verifsim/coro"
 )
 
 type appliedRec struct {
@@ -64,10 +65,13 @@ type oracles struct {
 	readConf      map[int]map[pb.SystemCtx]map[uint64]bool
 	readWatch     map[int]*readWatch
 	dupReadIndex  int
+	roleWatch     map[int]roleRec
+	matchSeen     map[[3]uint64]bool // (leader replica, term, follower replica<<40|match) already compared
+	campaigns     []campaignRec
 	commitTerm    map[uint64]commitRec // index -> term of the entry the shard committed there (first observer wins)
 	commitSeen    map[int][2]uint64    // host -> (incarnation, highest index checked)
-	lastMem       []*memView        // last membership observed per host
-	everRemoved   map[uint64]uint64 // replica id -> ccid at which it was seen removed
+	lastMem       []*memView           // last membership observed per host
+	everRemoved   map[uint64]uint64    // replica id -> ccid at which it was seen removed
 	maxCommitted  uint64
 	dupFired      int
 	deadWids      []uint64 // writes proposed with unregistered sessions: must never be applied
@@ -83,6 +87,8 @@ func newOracles(s *Sim) *oracles {
 	o.memByCCID = map[uint64]*memView{}
 	o.readConf = map[int]map[pb.SystemCtx]map[uint64]bool{}
 	o.readWatch = map[int]*readWatch{}
+	o.roleWatch = map[int]roleRec{}
+	o.matchSeen = map[[3]uint64]bool{}
 	o.commitTerm = map[uint64]commitRec{}
 	o.commitSeen = map[int][2]uint64{}
 	o.everRemoved = map[uint64]uint64{}
@@ -315,11 +321,15 @@ func (o *oracles) afterStep() {
 			o.maxCommitted = eff
 		}
 		o.checkReadConfirmation(h, st)
+		o.noteCampaign(h, st)
 		quiet := o.hostQuiet(h)
 		if o.checkRecovery[h.id] {
 			if fst, ok := o.peekFull(h); ok {
 				o.checkRecovered(h, fst)
 			}
+		}
+		if st.Role == "Leader" {
+			o.checkMatchIndexes(h, st)
 		}
 		if quiet {
 			o.checkCommittedTerms(h, eff)
@@ -431,6 +441,144 @@ func (o *oracles) observeMembership(h *Host, st raft.VerifState) {
 		}
 	}
 	o.checkRole(h, st, v, r.Stopped())
+}
+
+type roleRec struct {
+	inc  int
+	role string
+	term uint64
+}
+
+type campaignRec struct {
+	replica   uint64
+	term      uint64
+	applied   uint64
+	committed uint64
+}
+
+// noteCampaign records every start of a campaign (a replica turning
+// (pre-vote) candidate, or a candidate moving to a higher term) together with
+// its commit index and the applied index of its state machine at the moment it
+// is observed. A candidate's commit index does not move, and the raft core's
+// own copy of the applied index is never ahead of the state machine's, so
+// every membership change entry in (applied, committed] was committed and not
+// applied when the campaign started (C03: "no campaign while a committed
+// membership change is unapplied"). Which indexes hold membership changes is
+// only known once some replica has applied them: judged in finalChecks.
+func (o *oracles) noteCampaign(h *Host, st raft.VerifState) {
+	prev, ok := o.roleWatch[h.id]
+	o.roleWatch[h.id] = roleRec{inc: h.inc, role: st.Role, term: st.Term}
+	cand := st.Role == "Candidate" || st.Role == "PreVoteCandidate"
+	if !cand || !ok || prev.inc != h.inc {
+		return
+	}
+	wasCand := prev.role == "Candidate" || prev.role == "PreVoteCandidate"
+	if wasCand && prev.term == st.Term && prev.role == st.Role {
+		return
+	}
+	if prev.role == "PreVoteCandidate" && st.Role == "Candidate" {
+		return // the second stage of one campaign
+	}
+	r, rok := h.nh.VerifGetReplica(shardID)
+	if !rok {
+		return
+	}
+	o.s.ctx.Count("probe.campaign_started", 1)
+	o.campaigns = append(o.campaigns, campaignRec{replica: st.ReplicaID, term: st.Term, applied: r.Applied(), committed: st.Committed})
+}
+
+func (o *oracles) checkCampaigns() {
+	ccids := make([]uint64, 0, len(o.memByCCID))
+	for ccid := range o.memByCCID {
+		ccids = append(ccids, ccid)
+	}
+	sort.Slice(ccids, func(i, j int) bool { return ccids[i] < ccids[j] })
+	for _, c := range o.campaigns {
+		for _, ccid := range ccids {
+			if ccid != 0 && c.applied < ccid && ccid <= c.committed {
+				o.s.ctx.Violate("C03", "campaign-with-unapplied-config-change", "replica %d started a campaign (term %d) with commit index %d while its state machine had applied %d only: the membership change at index %d was committed and not applied there", c.replica, c.term, c.committed, c.applied, ccid)
+				return
+			}
+		}
+	}
+}
+
+// logSafe: the raft log of h can be read by the scheduler now (no task of the
+// host is blocked or parked inside a file system operation, i.e. possibly
+// inside the log store or the LogReader with their locks held).
+func (o *oracles) logSafe(h *Host) bool {
+	if !h.up || h.nh == nil || h.booting {
+		return false
+	}
+	for _, t := range o.s.ex.Live() {
+		if t.Host == h.id && (t.Blocked || t.State() != coro.Parked || strings.HasPrefix(t.Point, "fs.") || strings.HasPrefix(t.Point, "eng.")) {
+			return false
+		}
+	}
+	return true
+}
+
+func (o *oracles) peerOf(h *Host) *raft.Peer {
+	r, ok := h.nh.VerifGetReplica(shardID)
+	if !ok || r.Stopped() {
+		return nil
+	}
+	p, _ := r.Peer().(*raft.Peer)
+	return p
+}
+
+// checkMatchIndexes (C02, log matching): what a leader records as the match
+// index of a member is an index up to which that member's log is identical
+// with the leader's. Compared whenever both logs can be read: the member must
+// not be in a higher term (then the leader is deposed and the member may have
+// been overwritten by its successor), and the entry must still be in both
+// logs (not compacted).
+func (o *oracles) checkMatchIndexes(lh *Host, st raft.VerifState) {
+	s := o.s
+	if !o.logSafe(lh) {
+		return
+	}
+	var lp *raft.Peer
+	for _, rm := range st.Remotes {
+		if rm.ReplicaID == st.ReplicaID || rm.Match == 0 {
+			continue
+		}
+		key := [3]uint64{st.ReplicaID, st.Term, rm.ReplicaID<<40 | rm.Match}
+		if o.matchSeen[key] {
+			continue
+		}
+		var fh *Host
+		for _, x := range s.hosts {
+			if x.replicaID == rm.ReplicaID && x.up && x.started && !x.stopped {
+				fh = x
+			}
+		}
+		if fh == nil || !o.logSafe(fh) {
+			continue
+		}
+		fst, ok := o.peek(fh)
+		if !ok || fst.Term > st.Term {
+			continue
+		}
+		fp := o.peerOf(fh)
+		if lp == nil {
+			lp = o.peerOf(lh)
+		}
+		if fp == nil || lp == nil {
+			continue
+		}
+		lt, err1 := raft.VerifTermAt(lp, rm.Match)
+		ft, err2 := raft.VerifTermAt(fp, rm.Match)
+		if err1 != nil || err2 != nil || lt == 0 || ft == 0 {
+			continue // compacted on one side (or not there any more: a restart without the unsynced tail never loses acknowledged entries, C04 judges that)
+		}
+		o.matchSeen[key] = true
+		s.ctx.Count("probe.match_index_compared", 1)
+		if lt != ft {
+			s.ctx.Violate("C02", "match-index-lies", "leader %d (term %d) records match index %d for replica %d, whose entry at that index is of term %d while the leader's is of term %d", st.ReplicaID, st.Term, rm.Match, rm.ReplicaID, ft, lt)
+			return
+		}
+	}
 }
 
 type commitRec struct {
@@ -1103,6 +1251,7 @@ func (o *oracles) finalChecks() {
 			byApplied[st.Applied] = stRec{hash: hs, host: h.id}
 		}
 	}
+	o.checkCampaigns()
 	o.recordOutstanding()
 	o.checkStaleReads()
 	o.checkLinearizable()
